@@ -1386,6 +1386,13 @@ func (s *Store) restoreDBFromBackup(ctx context.Context, name string) (newPos lt
 	}
 	defer guard.Unlock()
 
+	// Only the primary takes its database from the backup service. The node
+	// may have lost its primary status while the snapshot was fetched or while
+	// it waited for the lock; as a replica it follows the new primary instead.
+	if !s.IsPrimary() {
+		return ltx.Pos{}, fmt.Errorf("restore from backup: %w", ErrReadOnlyReplica)
+	}
+
 	if err := db.recover(ctx); err != nil {
 		return ltx.Pos{}, fmt.Errorf("recover: %s", err)
 	}
